@@ -160,7 +160,39 @@ def standin(tier, seed):
                     V.add(f"{name}:bookkeeping_leaks", case, attr)
             if getattr(ctx, "particle_delta", 0) != 0:
                 V.add(f"{name}:bookkeeping_leaks", case, "particle_delta")
-    return V.result(bound=f"9 driver / move-table configurations x {steps} single-trial steps, deep snapshot comparison after every rejected or failed trial")
+    # the user edits the atoms BETWEEN two runs of the same driver (positions, cell): the first rejected trial of the second run goes
+    # back to the configuration as edited, not to where the first run ended
+    from quansino.mc.canonical import Canonical as _Can
+    from quansino.mc.isobaric import Isobaric as _Iso
+    from quansino.moves.displacement import DisplacementMove as _DM
+    from quansino.moves.cell import CellMove as _CM
+    from quansino.operations.displacement import Ball as _Ball
+    for kind in ("Canonical", "Isobaric"):
+        for rep in range(3 if tier == "quick" else 20):
+            a = bulk("Cu", cubic=True)
+            a.rattle(0.05, seed=3 + rep)
+            a.calc = pair_calculator()
+            g2 = np.random.default_rng(seed + rep)
+            with warnings.catch_warnings():
+                warnings.simplefilter("ignore")
+                sim = _Can(a, temperature=800.0, seed=seed + rep, max_cycles=1) if kind == "Canonical" else _Iso(a, temperature=800.0, pressure=0.0, seed=seed + rep, max_cycles=1)
+            sim.add_move(_DM(np.arange(4), _Ball(0.2)), Scripted(g2, 0.5), name="d")
+            if kind == "Isobaric":
+                sim.add_move(_CM(), Scripted(g2, 0.5), name="c")
+            sim.run(3)
+            a.positions[[0, 2]] += g2.normal(size=(2, 3)) * 0.1          # in place, as users do
+            if kind == "Isobaric" and rep % 2:
+                a.set_cell(a.cell.array * 1.01, scale_atoms=True)
+            for nm in sim.moves:
+                sim.moves[nm].criteria = Scripted(g2, 0.0)                 # everything is rejected from now on
+            snap = deep(a)
+            sim.run(2)
+            case = {"driver": kind, "edited_between_runs": True, "rep": rep}
+            V.case(case)
+            d = diff(a, snap)
+            if d:
+                V.add(f"{kind}(second run after the user edited the atoms):not_restored", case, "; ".join(d)); break
+    return V.result(bound=f"second run after an edit between runs; 9 driver / move-table configurations x {steps} single-trial steps, deep snapshot comparison after every rejected or failed trial")
 
 
 def replay(case):
